@@ -16,7 +16,7 @@ use std::collections::BTreeMap;
 use std::path::{Path, PathBuf};
 
 const DIRS: [&str; 4] = ["", "d", "ab", "d/ab"];
-const FILES: [&str; 8] = ["index.html", "a.html", "a.txt", "ab.txt", "b.css", "x.y.js", "p.png", "empty.json"];
+const FILES: [&str; 9] = ["index.html", "a.html", "a.txt", "ab.txt", "b.css", "x.y.js", "p.png", "empty.json", "n.txt.html"];
 
 fn mime_of(name: &str) -> &'static str {
     match name.rsplit('.').next().unwrap() {
@@ -107,8 +107,12 @@ fn materialize(c: &Config, root: &Path) -> std::io::Result<PathBuf> {
     }
     std::fs::create_dir_all(root.join("outside"))?;
     std::fs::write(root.join("outside").join("secret.txt"), b"TOP SECRET outside the served directory")?;
+    // a sibling directory whose name merely *extends* the served directory's name (string prefix, not a path prefix)
+    std::fs::create_dir_all(root.join("served2"))?;
+    std::fs::write(root.join("served2").join("secret2.txt"), b"TOP SECRET in a sibling directory named served2")?;
     if c.symlink_outside {
         std::os::unix::fs::symlink(root.join("outside").join("secret.txt"), served.join("ln.txt"))?;
+        std::os::unix::fs::symlink(root.join("served2").join("secret2.txt"), served.join("ln2.txt"))?;
     }
     Ok(served)
 }
@@ -162,7 +166,7 @@ fn requests(c: &Config, exp: &BTreeMap<String, (String, Vec<u8>, &'static str)>)
         add("GET", format!("{dp}/{name}.{}", name.rsplit('.').next().unwrap()), "near-miss:double-ext");
         if !dir.is_empty() { add("GET", format!("{base}/{name}"), "wrong-directory"); }
     }
-    for p in ["/secret.txt", "/outside/secret.txt", "/ln.txt", "/../outside/secret.txt", "/served/a.txt", "/new.txt", "/zz"] {
+    for p in ["/secret.txt", "/outside/secret.txt", "/ln.txt", "/../outside/secret.txt", "/served/a.txt", "/new.txt", "/zz", "/ln2.txt", "/secret2.txt", "/2/secret2.txt", "/served2/secret2.txt"] {
         add("GET", format!("{base}{p}"), "outside");
     }
     add("GET", "/..".into(), "dotdot"); add("GET", "/".into(), "root"); add("GET", format!("{base}/%2e%2e/outside/secret.txt"), "dotdot-encoded");
